@@ -7,6 +7,7 @@ import RjModel.Props.C05
 import RjModel.Props.C06
 import RjModel.Props.C07
 import RjModel.Props.C08
+import RjModel.Props.C09
 import RjModel.Props.C10
 import RjModel.Props.C11
 import RjModel.Props.C13
